@@ -73,9 +73,13 @@ func c07(e *Env) {
 	var stalledNode *world.Node // a node that answers nothing for a while (some runs)
 	var stallUntil time.Duration
 	st := make([]*cstate, len(f.clients))
+	slotOf := map[*world.Client]int{}
 	for i := range st {
 		st[i] = &cstate{left: 10 + c.Choose("c07ops", 30)}
+		slotOf[f.clients[i]] = i
 	}
+	faultsInjected := false // connection losses / stalls: data requests may then legitimately fail
+	var dataReqs []*world.ClientReq
 	expectKS := map[string]string{} // token -> keyspace the request must run in
 	// several clients may be told to switch to the same keyspace in the same window
 	rush := -1
@@ -90,7 +94,10 @@ func c07(e *Env) {
 	preps := make([][]c07prep, len(f.clients))
 	prepReqs := map[*world.ClientReq]bool{}
 	w.OnReply = func(req *world.ClientReq, rep *world.ClientReply) {
-		i := req.Client.ID - 1
+		i, known := slotOf[req.Client]
+		if !known {
+			return // a client that has left
+		}
 		s := st[i]
 		if rep.Frame != nil && prepReqs[req] {
 			if pr, ok := rep.Frame.Body.Message.(*message.PreparedResult); ok {
@@ -215,6 +222,26 @@ func c07(e *Env) {
 		i := en[k]
 		cl, s := f.clients[i], st[i]
 		opsDone++
+		if s.pending == nil && len(cl.Outstanding) == 0 && s.ks != "" && c.Choose("c07leave", 12) == 11 {
+			// The client leaves and another one (same version and compression) takes its place:
+			// nothing the first one did may affect what the second one gets. It starts with no
+			// keyspace and will USE the same ones.
+			cl.Disconnect()
+			delete(slotOf, cl)
+			ncl := w.ConnectClient(f.pi, cl.Version)
+			opts := map[string]string{"CQL_VERSION": "3.0.0"}
+			if cl.Compression != "" {
+				opts["COMPRESSION"] = cl.Compression
+				ncl.Compression = cl.Compression
+			}
+			ncl.Send("startup", "", &message.Startup{Options: opts}, nil)
+			f.clients[i] = ncl
+			slotOf[ncl] = i
+			preps[i] = nil
+			s.ks = ""
+			e.Res.Stats["probe.c07.client_replaced"]++
+			return
+		}
 		useInFlight := false
 		for _, x := range st {
 			if x.pending != nil {
@@ -233,6 +260,7 @@ func c07(e *Env) {
 			// cannot complete their handshake with it and time out), then resumes
 			stalledNode = w.Nodes[c.Choose("c07stallnode", len(w.Nodes))]
 			stalledNode.Stalled = true
+			faultsInjected = true
 			stallUntil = w.Now() + time.Duration(11+c.Choose("c07stalllen", 20))*time.Second
 			w.Logf("node %s: stall begins", stalledNode)
 			e.Res.Stats["probe.c07.node_stalled"]++
@@ -243,6 +271,7 @@ func c07(e *Env) {
 			if c.Choose("c07faultall", 3) != 0 {
 				nodes = []*world.Node{w.Nodes[c.Choose("c07faultnode", len(w.Nodes))]}
 			}
+			faultsInjected = true
 			for _, n := range nodes {
 				for _, bc := range n.LiveConns() {
 					bc.Reset("fault: backend connections lost in the middle of the history")
@@ -286,7 +315,7 @@ func c07(e *Env) {
 		switch kind {
 		case 0:
 			stt := world.DrawStmt(c, "'"+tok+"'", "t")
-			cl.Send("query", tok, world.QueryMsg(stt.Text, primitive.ConsistencyLevelOne), nil)
+			dataReqs = append(dataReqs, cl.Send("query", tok, world.QueryMsg(stt.Text, primitive.ConsistencyLevelOne), nil))
 		case 1:
 			// unqualified table: the statement resolves in the connection's keyspace
 			r := cl.Send("prepare", tok, &message.Prepare{Query: "SELECT * FROM t_" + tok + " WHERE k = ?"}, nil)
@@ -297,7 +326,7 @@ func c07(e *Env) {
 			if cl.Version.SupportsResultMetadataId() {
 				rm = pp.rmid
 			}
-			cl.Send("execute", tok, world.ExecMsg(pp.id, rm, tok, primitive.ConsistencyLevelOne), nil)
+			dataReqs = append(dataReqs, cl.Send("execute", tok, world.ExecMsg(pp.id, rm, tok, primitive.ConsistencyLevelOne), nil))
 		case 3:
 			b := &message.Batch{Type: primitive.BatchTypeLogged, Consistency: primitive.ConsistencyLevelOne}
 			for j := 0; j < 1+c.Choose("c07bn", 3); j++ {
@@ -308,7 +337,7 @@ func c07(e *Env) {
 					b.Children = append(b.Children, &message.BatchChild{Id: pp.id, Values: []*primitive.Value{primitive.NewValue([]byte(tok))}})
 				}
 			}
-			cl.Send("batch", tok, b, nil)
+			dataReqs = append(dataReqs, cl.Send("batch", tok, b, nil))
 		}
 	}
 	done := func() bool {
@@ -338,6 +367,16 @@ func c07(e *Env) {
 				return
 			}
 		}
+	}
+	if !faultsInjected && refuser < 0 {
+		// fault-free history, every node has every keyspace: nothing may fail
+		for _, r := range dataReqs {
+			if em, isErr := replyMsg(r).(message.Error); isErr {
+				w.Violate("c07-served", "request-failed-in-fault-free-history", fmt.Sprintf("%s of %s was answered with %v although no fault was injected and its keyspace exists on every node", r, r.Client, em))
+				return
+			}
+		}
+		e.Res.Stats["oracle.c07.fault_free_successes_checked"] += len(dataReqs)
 	}
 	e.Res.Stats["oracle.c07.use_replies_checked"] += useChecked
 	e.Res.Stats["probe.c07.failed_uses"] += failedUses
